@@ -45,6 +45,8 @@ fn main() {
         "c12" => vharness::c12::run(seed, n, thorough, &corpus, &dir),
         "c17" => vharness::c17::run(seed, n, thorough, &corpus, &dir),
         "rx" => vharness::rx::run(seed, n, thorough, &corpus, &dir),
+        "life" => vharness::life::run(seed, n, thorough, &corpus, &dir),
+        "lifem" => vharness::life::run_model(seed, n, thorough, &corpus, &dir),
         "c08" => vharness::c08::run(seed, n, thorough, &corpus, &dir),
         "c08w" => vharness::c08::run_wake(seed, n, &dir),
         "typed" => vharness::typed::run(seed, n, thorough, &corpus, &dir),
